@@ -704,7 +704,7 @@ def get_fully_qualified_name(obj: Union[FunctionType, type]) -> str:
         mod = None
     name = getattr(obj, "__qualname__", None)
     if name is None:
-        return repr(obj)
+        return _literal_repr(obj)
     if mod:
         return f"{mod}.{name}"
     return name
